@@ -39,9 +39,10 @@ pub fn expand(input: &DeriveInput, trait_name: &'static str) -> Result<TokenStre
             Fields::Unnamed(_) => quote! { (..) },
             Fields::Unit => quote! {},
         };
+        let variant_str = variant_ident.to_string();
         let func = quote! {
             #[doc = "Returns `true` if this value is of type `"]
-            #[doc = stringify!(#variant_ident)]
+            #[doc = #variant_str]
             #[doc = "`. Returns `false` otherwise"]
             #[inline]
             #[must_use]
